@@ -78,6 +78,40 @@ for L in (1, 2, 3, 4):
     P.contract('glm_unpackHalf_v%d' % L, 'glm::unpackHalf<%d>  ' % L + PK, unwind=12, uses=['glm_toFloat32'],
                ensures=[('comp%d' % i, '%s(out[%d]) == %s(glm_toFloat32(%s))' % (BITS, i, BITS, c)) for i, c in enumerate(comps)])
 
+# ---------------------------------------------------------------------------------------------------------------------------
+# MODULAR route (-O1 -fno-inline: every GLM function survives as its own IR function): the conversion kernels carry their own
+# contracts, and the pack/unpack callers are verified against those CONTRACTS (goto-instrument --replace-call-with-contract),
+# not against the kernels' bodies.  Every contract assumed at a call site is also enforced in the same run.
+mod = P.build(d, 'modular', tag='c07_modular')
+F16 = '_ZN3glm6detail9toFloat16ERKf'
+F32 = '_ZN3glm6detail9toFloat32Es'
+# kernels: enforced with the concrete predicates; what callers may assume is the ABSTRACT spelling (specs/spec_half.h)
+P.contract(F16, 'glm::detail::toFloat16(float const&)  ' + H + '  [modular, kernel]', build=mod, unwind=12,
+           sig={'ret': 'u16', 'ins': [], 'ptr_ins': [('float', 'f', 1)], 'outs': [], 'ir': F16},
+           requires=[], assigns=[], ensures=[('half_ok', 'spec_half_ok(f[0], RESULT)')],
+           assumed_ensures=[('half_ok_abstract', 'SPEC_HALF_OK_ABS(f[0], RESULT)')])
+P.contract(F32, 'glm::detail::toFloat32(hdata)  ' + H + '  [modular, kernel]', build=mod, unwind=12,
+           sig={'ret': 'float', 'ins': [('u16', 'h')], 'outs': [], 'ir': F32}, assigns=[],
+           ensures=[('exact_value_or_nan', 'spec_half_exact(h, RESULT)')],
+           assumed_ensures=[('exact_abstract', 'SPEC_HALF_EXACT_ABS(h, RESULT)')])
+# callers against the kernel CONTRACTS (parametric in the predicate)
+P.contract('glm_packHalf1x16', 'glm::packHalf1x16  ' + PK + '  [modular: toFloat16 replaced by its contract]', build=mod, unwind=12,
+           replace=[F16], ensures=[('half_ok', 'SPEC_HALF_OK_ABS(x, RESULT)')])
+P.contract('glm_packHalf2x16', 'glm::packHalf2x16  glm/detail/func_packing.inl  [modular: toFloat16 replaced by its contract]', build=mod, unwind=12,
+           replace=[F16], ensures=[('x_in_low_half', 'SPEC_HALF_OK_ABS(x, (u16)RESULT)'), ('y_in_high_half', 'SPEC_HALF_OK_ABS(y, (u16)(RESULT >> 16))')])
+P.contract('glm_packHalf4x16', 'glm::packHalf4x16  ' + PK + '  [modular: toFloat16 replaced by its contract]', build=mod, unwind=12,
+           replace=[F16], ensures=[('comp%d' % i, 'SPEC_HALF_OK_ABS(%s, (u16)(RESULT >> %d))' % (c_, 16 * i)) for i, c_ in enumerate('xyzw')])
+P.contract('glm_unpackHalf1x16', 'glm::unpackHalf1x16  ' + PK + '  [modular: toFloat32 replaced by its contract]', build=mod, unwind=12,
+           replace=[F32], ensures=[('exact_value', 'SPEC_HALF_EXACT_ABS(h, RESULT)')])
+P.contract('glm_unpackHalf2x16', 'glm::unpackHalf2x16  glm/detail/func_packing.inl  [modular: toFloat32 replaced by its contract]', build=mod, unwind=12,
+           replace=[F32], ensures=[('x_from_low', 'SPEC_HALF_EXACT_ABS((u16)p, out[0])'), ('y_from_high', 'SPEC_HALF_EXACT_ABS((u16)(p >> 16), out[1])')])
+for L_ in (1, 2, 3, 4):
+    cs = 'xyzw'[:L_]
+    P.contract('glm_packHalf_v%d' % L_, 'glm::packHalf<%d>  ' % L_ + PK + '  [modular: toFloat16 replaced by its contract]', build=mod, unwind=12,
+               replace=[F16], ensures=[('comp%d' % i, 'SPEC_HALF_OK_ABS(%s, out[%d])' % (c_, i)) for i, c_ in enumerate(cs)])
+    P.contract('glm_unpackHalf_v%d' % L_, 'glm::unpackHalf<%d>  ' % L_ + PK + '  [modular: toFloat32 replaced by its contract]', build=mod, unwind=12,
+               replace=[F32], ensures=[('comp%d' % i, 'SPEC_HALF_EXACT_ABS(%s, out[%d])' % (c_, i)) for i, c_ in enumerate(cs)])
+
 P.level_text = ('every obligation is a contract clause on the code clang extracts from /repo, discharged by CBMC bit-precisely '
                 'for all 2^16 half and all 2^32 float patterns (symbolic argument = complete enumeration); loops closed by '
                 'width-bounded unwinding with unwinding assertions')
